@@ -9,11 +9,14 @@ summ = json.load(open(sys.argv[3])) if len(sys.argv) > 3 else {}
 # optional 4th argument: a detection matrix written by tools/checks_on_mutants.sh with a newer harness; its
 # "checks" replace the ones recorded next to the confirmation
 matrix = {}
+notes = {}
 if len(sys.argv) > 4 and os.path.exists(sys.argv[4]):
     for l in open(sys.argv[4]):
         r = json.loads(l)
         if r.get("checks"):
             matrix[r["mutant"]] = r["checks"]
+            if r.get("note"):
+                notes[r["mutant"]] = r["note"]
 head = os.popen("git -C /repo rev-parse --short HEAD").read().strip()
 vhead = os.popen(f"git -C {ROOT} rev-parse --short HEAD").read().strip()
 kept = 0
@@ -58,6 +61,7 @@ for line in open(results):
             "detected_by": {k: v["sig"] for k, v in sorted(detected.items())},
             "inconclusive_exit_2": inconclusive,
             "own_property_check_detects": prop in detected,
+            "note": notes.get(name, ""),
         },
     }
     json.dump(meta, open(os.path.join(d, "meta.json"), "w"), indent=1)
